@@ -259,6 +259,10 @@ def execModel (w : World) (toks : List String) (hint : String) : World × String
       let r := Writer.init (pattern capN) capN isNull
       (setW w k r.1, wobs r.1 r.2)
   | ["wx"] => withW fun x => let r := x.reset; (setW w k r.1, wobs r.1 r.2)
+  -- a NULL argument (binson_write_name(w, NULL), binson_write_raw(w, NULL, n)): ERROR_NULL, false, nothing stored or counted.
+  -- Outside `WOp` (the theorems assume valid arguments); modelled here so that the latch and reset oracles see such histories.
+  | ["wnN"] => withW fun x => let x' := { x with err := .null }; (setW w k x', wobs x' false)
+  | ["wrN", _] => withW fun x => let x' := { x with err := .null }; (setW w k x', wobs x' false)
   | ["wob"] => wOp .objBegin
   | ["woe"] => wOp .objEnd
   | ["wab"] => wOp .arrBegin
@@ -269,6 +273,10 @@ def execModel (w : World) (toks : List String) (hint : String) : World × String
   | ["ws", hx] => wOp (.str (parseHex hx).toList)
   | ["wn", hx] => wOp (.str (parseHex hx).toList)
   | ["wy", hx] => wOp (.bytes (parseHex hx).toList)
+  -- the empty value handed over as (NULL, 0): same call for the model
+  | ["ws", hx, "N"] => wOp (.str (parseHex hx).toList)
+  | ["wn", hx, "N"] => wOp (.str (parseHex hx).toList)
+  | ["wy", hx, "N"] => wOp (.bytes (parseHex hx).toList)
   | ["wr", hx] => wOp (.raw (parseHex hx).toList)
   | ["wc"] => withW fun x => (w, wobs x true)
   | ["wv"] => withW fun x => if x.bufNull || x.used > x.cap then (w, "skip") else (w, wobs x (writerVerify x))
@@ -591,13 +599,20 @@ def writerOracle (o : OState) (k : Nat) (toks : List String) (impl : String) : O
     | ["wb", b] => some (.bool (b != "0")) | ["wi", v] => some (.int v.toInt!) | ["wd", b] => some (.dbl b.toNat!)
     | ["ws", hx] => some (.str (parseHex hx).toList) | ["wn", hx] => some (.str (parseHex hx).toList)
     | ["wy", hx] => some (.bytes (parseHex hx).toList) | ["wr", hx] => some (.raw (parseHex hx).toList)
+    | ["ws", hx, "N"] => some (.str (parseHex hx).toList) | ["wn", hx, "N"] => some (.str (parseHex hx).toList)
+    | ["wy", hx, "N"] => some (.bytes (parseHex hx).toList)
     | _ => none
   match toks with
   | ["W", cap] =>
     let isNull := cap == "NULL"
     setWO o { cap := if isNull then 0 else cap.toNat!, isNull := isNull, broken := isNull,
               base := pattern (if isNull then 0 else cap.toNat!) }
+  | ["wnN"] | ["wrN", _] => setWO o { wo with broken := true }
   | ["wx"] =>
+    -- C12: a reset that returned true leaves a writer that is like a fresh one: counter 0, no error
+    let o := (match parts with
+      | r :: e :: c :: _ => if r == "1" && (e != "e0" || c != "c0") then o.flag "C12" s!"@{k} binson_writer_reset returned true but the writer is not like a fresh one: {impl}" else o
+      | _ => o)
     (match parts with
      | r :: _ =>
        if r == "1" then
@@ -707,7 +722,7 @@ def oracleStep (o : OState) (toks : List String) (impl : String) : OState :=
   if op == "M" then o else
   if op.startsWith "x" then cppOracle o op toks impl else
   if op == "C" then { o with ps := #[{}, {}, {}, {}], ws := #[{}, {}, {}, {}], nCases := o.nCases + 1, region := 0 } else
-  if ["W", "wx", "wob", "woe", "wab", "wae", "wb", "wi", "wd", "ws", "wn", "wy", "wr", "wc", "wv", "dump"].contains op then
+  if ["W", "wx", "wob", "woe", "wab", "wae", "wb", "wi", "wd", "ws", "wn", "wy", "wr", "wc", "wv", "dump", "wnN", "wrN"].contains op then
     writerOracle o k toks impl else
   if op == "P" then
     setPO o { md := (toks.getD 1 "0").toNat! } else
